@@ -390,9 +390,54 @@ func invRunCase(id string, in bhInput, gen *bhGenerator) Case {
 	return c
 }
 
-// invClass: no known-finding class exists for C15 (the precompile defects K3-K9 change the supply through the
-// bank and leave every registered invariant intact), so every failing history is reported as a violation.
-func invClass(in bhInput, o invObs) string { return "" }
+// classTornPrecompile is the known-finding class K17 (root cause of K3: a stateful precompile call that fails does
+// not roll back what it already did on the Cosmos side; when the failure is an out-of-gas in the MIDDLE of the
+// message, e.g. between the two halves of a reward withdrawal, the distribution records are left torn).
+const classTornPrecompile = "evm:failed-precompile-call-leaves-torn-distribution-state"
+
+// bhToleratedPrecompileShape: some Ethereum script transaction of the history contains a stateful precompile call
+// whose failure is tolerated, by the call itself or by an enclosing frame (a predicate on the input only).
+func bhToleratedPrecompileShape(in bhInput) bool {
+	var walk func(body []bhInstr, tolerated bool) bool
+	walk = func(body []bhInstr, tolerated bool) bool {
+		for _, ins := range body {
+			switch ins.Op {
+			case "pcall":
+				if tolerated || ins.Catch {
+					return true
+				}
+			case "call":
+				if walk(ins.B, tolerated || ins.Catch) {
+					return true
+				}
+			}
+		}
+		return false
+	}
+	for _, b := range in.Blocks {
+		for _, t := range b.Txs {
+			if t.K == "ethcall" && walk(t.B, false) {
+				return true
+			}
+		}
+	}
+	return false
+}
+
+// invClass: the only known-finding class of C15 is K17; it is attributed only when the history has the shape above,
+// the broken routes are the distribution module's reward bookkeeping (can-withdraw / reference-count) and nothing
+// else is wrong (no blocked address credited, no other route); anything else is reported as a violation.
+func invClass(in bhInput, o invObs) string {
+	if len(o.Broken) == 0 || len(o.Credited) > 0 || !bhToleratedPrecompileShape(in) {
+		return ""
+	}
+	for _, b := range o.Broken {
+		if b.Route != "distribution/can-withdraw" && b.Route != "distribution/reference-count" {
+			return ""
+		}
+	}
+	return classTornPrecompile
+}
 
 func invariantsDriver(cfg Config, out *Out) error {
 	if cfg.Replay != "" {
